@@ -534,6 +534,9 @@ pub fn run(tier: &str) -> i32 {
     report.violations(v);
     let (static_n, static_accepted) = core::on_big_stack(|| static_side(&mut report));
     let n_scenarios = core::on_big_stack(|| scenarios(&mut report));
+    // second model: the aliasing graph changes (re-binding, fresh copies, tuples, destructuring, capture)
+    let (dynamic, dyn_violations) = crate::props::c13dyn::explore(if thorough { 6 } else { 4 });
+    report.violations(dyn_violations);
     let transitions = shared.transitions.load(Ordering::Relaxed);
     let outcomes = shared.outcomes.lock().unwrap().len();
     let coverage = json!({
@@ -547,6 +550,8 @@ pub fn run(tier: &str) -> i32 {
         "ill_typed_actions_rejected_as_expected": shared.rejected_as_expected.load(Ordering::Relaxed),
         "failing_updates_with_expected_error_and_unchanged_cell": shared.errors_as_expected.load(Ordering::Relaxed),
         "aliasing_scenarios": n_scenarios,
+        "dynamic_aliasing_model": {"states": dynamic.states, "transitions": dynamic.transitions, "depth_bound": dynamic.depth, "actions": dynamic.actions, "distinct_observations": dynamic.distinct_observations, "max_live_cells": dynamic.max_cells,
+            "rule": "hand-written BFS; a state is (cell contents, cell held by x, y, p.0, p.1, the closure h), canonicalised by renumbering reachable cells; every transition runs the whole history on the real interpreter and compares step result, contents through every path and identity relations (== on cells)"},
         "static_admissibility_cases": static_n,
         "static_admitted": static_accepted,
         "distinct_outcomes": outcomes,
